@@ -1,6 +1,8 @@
 package vm
 
 import (
+	"bytes"
+	"encoding/json"
 	"fmt"
 	"math/big"
 
@@ -29,6 +31,20 @@ type ScriptV1 struct {
 	Vars map[string]any `json:"vars"`
 }
 
+// UnmarshalJSON decodes numbers as json.Number so that a monetary amount given as a
+// JSON number keeps all its digits (a float64 is exact only up to 2^53).
+func (s *ScriptV1) UnmarshalJSON(data []byte) error {
+	type aux ScriptV1
+	x := aux{}
+	dec := json.NewDecoder(bytes.NewReader(data))
+	dec.UseNumber()
+	if err := dec.Decode(&x); err != nil {
+		return err
+	}
+	*s = ScriptV1(x)
+	return nil
+}
+
 func (s ScriptV1) ToCore() Script {
 	s.Script.Vars = map[string]string{}
 	for k, v := range s.Vars {
@@ -39,6 +55,14 @@ func (s ScriptV1) ToCore() Script {
 			switch amount := v["amount"].(type) {
 			case string:
 				s.Script.Vars[k] = fmt.Sprintf("%s %s", v["asset"], amount)
+			case json.Number:
+				if exact, ok := new(big.Int).SetString(amount.String(), 10); ok {
+					s.Script.Vars[k] = fmt.Sprintf("%s %s", v["asset"], exact.String())
+				} else {
+					// fractional or exponent notation: keep the historical conversion
+					f, _ := amount.Float64()
+					s.Script.Vars[k] = fmt.Sprintf("%s %d", v["asset"], int(f))
+				}
 			case float64:
 				s.Script.Vars[k] = fmt.Sprintf("%s %d", v["asset"], int(amount))
 			}
